@@ -232,7 +232,7 @@ def execute(plan):
                     solo = Sched(script=[], max_steps=200000)
                     solo.spawn("S", lambda da=da, sel=sel: select.apply(da, sel).load().values)
                     m_solo = SIM.mark()
-                    solo.run(wall_timeout=120)
+                    solo.run(wall_timeout=800)
                     solo_events += SIM.mark() - m_solo
                     if solo.deadlock or solo.budget:
                         violations.append(Violation(ID, "deadlock", "single-load", {
@@ -271,7 +271,7 @@ def execute(plan):
                     sched.spawn("L%d" % ai, work)
                 mark = SIM.mark()
                 try:
-                    sched.run(wall_timeout=120)
+                    sched.run(wall_timeout=800)
                 except HarnessHang:
                     raise
                 evaluations += 1
